@@ -12,7 +12,7 @@ import os
 import kit
 
 
-def run_pipelines(ctx, faults, label, runs=None, conns=None, reqs=None, perturb=True):
+def run_pipelines(ctx, faults, label, runs=None, conns=None, reqs=None, perturb=True, stopopen=False):
     if runs is None:
         runs = 60 if ctx.thorough else 8
     conns = conns or (8 if ctx.thorough else 5)
@@ -25,6 +25,8 @@ def run_pipelines(ctx, faults, label, runs=None, conns=None, reqs=None, perturb=
         args.append("-faults")
     if perturb:
         args.append("-perturb")
+    if stopopen:
+        args.append("-stopopen")
     ctx.build("pipe")
     rc, so, se = ctx.harness(args, timeout=3000, allow_fail=True, name="pipe")
     results = kit.read_ndjson(out) if os.path.exists(out) else []
@@ -49,6 +51,8 @@ def run_pipelines(ctx, faults, label, runs=None, conns=None, reqs=None, perturb=
             ctx.violation("lost-request/stress%s" % ("/faults" if faults else ""),
                           "conn %s request %s (%s) never answered: %s" % (m["c"], m["k"], m["kind"], m["why"]),
                           {"run": r, "lost": m})
+        if r.get("closed") and not (faults or stopopen):
+            ctx.violation("connection-closed-unexpectedly", "%d connection(s) closed by the proxy before all replies arrived" % r["closed"], {"run": r})
         for m in (r.get("extra") or []):
             ctx.violation("extra-reply", "conn %s got more replies than requests: %s" % (m["c"], m["got"]), {"run": r, "extra": m})
     # code -> spec: boundary trace against the observational specification
